@@ -14,9 +14,15 @@ EXTRA = {   # seeds whose own property's check does not report them, with the ch
     "C11-r2m3": "reported by C12 (same change as C11-m2)",
     "C11-r3m3": "reported by C12 (same change as C11-m2)",
     "C13-r2m3": "also reported by C12 (pending-response list)",
+    "C07-r4m1": "reported by C08 (program-level behaviour of the transpiled code, not a gate decomposition)",
+    "C11-r4m3": "reported by C12 / C13 (executor's response matching and qubit bookkeeping, outside C11's quantifier)",
+    "C07-r5m3": "reported by C08 (`C08/schema[qubit register written by load used by single-qubit gates around a carbon-carbon gate]`): same change as C08-r5m1, a scratch register clobbers a live loaded register; every isolated gate is still decomposed exactly",
+    "C11-r5m1": "reported by C12 (`C12/deliver[...]` :: request queues: pairs left): the change is in the executor's handling of a deferred response",
+    "C20-r5m2": "reported by C05 (`C05/flush[arrays allocated on both sides of a flush stay distinct]`): the change is in the SDK's memory manager; the toolbox circuit itself is unchanged",
+    "C20-r5m3": "reported by C07 (`C07/decomp[cnot]`, electron-target placement): the change is in the NV transpiler; the toolbox circuit (vanilla) is unchanged",
     "C16-m2": "neutralised by the C16 repair 84f2381: the range checks added there reject what this change let through, so the property holds with it",
     "C16-m3": "neutralised by the C16 repair 84f2381 (as C16-m2)",
-    "C05-r2m2": "also reported by C03 (re-introduces the scratch-register defect of 52d6f3e)",
+    "C05-r2m2": "reported by C03 (re-introduces the scratch-register defect of 52d6f3e)",
     "C07-r2m1": "reported by C08 (`C08/shapes[...]` :: classical-registers-named-by-the-source-are-equal): a classical Q register is clobbered, not a gate decomposition",
     "C07-r3m2": "reported by C08 (as C07-r2m1)",
     "C02-r2m1": "also reported by C01 (re-encode after update)",
